@@ -23,7 +23,7 @@ def builds_needed(tier):
 
 
 def bounds(tier):
-    return {"builds": BUILDS, "in_domain_corpus": "all quick shards of C01-C15 on dbg and relchk (quick: the shards of C02/C04/C06/C07/C09 alternate between the two builds; thorough: every shard on both); rel is covered by the properties themselves and by the hook programs here",
+    return {"builds": BUILDS, "in_domain_corpus": "all quick shards of C01-C15 on dbg and relchk (quick: the tree shards of C02/C04/C06/C07/C09 and the large enumerations alternate between the two builds, their graph shards run on relchk only; thorough: every shard on both); rel is covered by the properties themselves and by the hook programs here",
             "memcheck": tier == "thorough"}
 
 
@@ -33,17 +33,29 @@ def validate_models(tier):
 
 
 HEAVY = ("c02", "c04", "c06", "c07", "c09")
+# large enumerations that the owning property already re-runs on the checked release build itself: here they alternate between the two
+# checked builds in the quick tier as well
+HEAVY_SHARDS = ("shard_limbs", "shard_scalar_hooks", "shard_big", "shard_everylen", "shard_sweep", "shard_scalar", "shard_dsm", "shard_key")
 
 
 def shards(tier):
     jobs = multi.foreign_jobs(CORPUS_MODS, "quick", ["dbg", "relchk"])
+    # half-gigabyte messages are hashed on the optimised checked build only (the debug profile needs minutes for them)
+    jobs = [j for j in jobs if not (j[1] == "shard_huge" and j[3] == "dbg")]
     if tier != "thorough":
         # quick: the five history-heavy corpora are split between the two checked builds (each shard runs on one of them, alternating),
         # everything else runs on both; thorough runs every shard on both builds
         keep, n = [], {}
         for j in jobs:
             mn, fname, arg, build = j
-            if mn in HEAVY:
+            if mn in HEAVY and fname == "shard_graph":
+                # the frontier-exhausting graph explorations are by far the longest shards: optimised checked build only in the quick
+                # tier (their tree-mode siblings, which reach the same code, alternate between both checked builds)
+                if build == "dbg":
+                    continue
+                keep.append(j)
+                continue
+            if mn in HEAVY or fname in HEAVY_SHARDS:
                 k = (mn, fname, repr(arg))
                 if k not in n:
                     n[k] = len(n)
